@@ -371,7 +371,7 @@ def ob_ratio(max_cells, max_headers):
                 padpow = alg.powf(pad, S - L)
                 spec = alg.powf(z, S) / (den * padpow)
                 nz = [d != 0 for d in alg.divisors] + [den != 0, padpow != 0]
-                verdict, model = check(nz + [out != spec], st, want_model=False, timeout_s=60)
+                verdict, model = check(nz + [out != spec], st, want_model=False, timeout_s=20)
                 if verdict == "unsat":
                     continue
                 if verdict == "inconclusive":
